@@ -3,6 +3,7 @@ package bufferutil
 import (
 	"bytes"
 	"fmt"
+	"io"
 )
 
 // Deserializer implements methods that help to deserialize an Elements transaction.
@@ -47,8 +48,11 @@ func (d *Deserializer) ReadVarInt() (uint64, error) {
 
 // ReadSlice reads the next n bytes from the reader's buffer
 func (d *Deserializer) ReadSlice(n uint) ([]byte, error) {
+	if uint64(n) > uint64(d.buffer.Len()) {
+		return nil, io.ErrUnexpectedEOF
+	}
 	decoded := make([]byte, n)
-	_, err := d.buffer.Read(decoded)
+	_, err := io.ReadFull(d.buffer, decoded)
 	if err != nil {
 		return nil, err
 	}
